@@ -38,9 +38,22 @@ const (
 	actExec  // log re.exec("ba")
 	actTest  // log re.test("aa")
 	actMatch // log "aa".match(re)
+	// nested operations whose result is RETURNED as the replacement value
+	actNestReplStr   // "xy".replace("x", "Q")
+	actNestReplStrNo // "xy".replace("z", "Q")
+	actNestReplRe    // "xay".replace(/a/g, "Q")
+	actNestReplReNo  // "xy".replace(/a/, "Q")
+	actNestReplSame  // "aa".replace(re, "Q")
+	actNestReplFn    // "ab".replace(/b/, function(m, off){ return "<" + off + ">" })
+	actNestSplit     // "a,b".split(/,/).join("|")
+	actNestMatch     // "xay".match(/a/)[0]
+	actNestCtor      // new RegExp(re).source + RegExp("b", "i").ignoreCase
 )
 
-var actNames = map[reAction]string{actNone: "none", actSet1: "set1", actSet2: "set2", actSet1Once: "set1once", actExec: "exec", actTest: "test", actMatch: "match"}
+var nestActs = []reAction{actNestReplStr, actNestReplStrNo, actNestReplRe, actNestReplReNo, actNestReplSame, actNestReplFn, actNestSplit, actNestMatch, actNestCtor}
+
+var actNames = map[reAction]string{actNestReplStr: "nreplstr", actNestReplStrNo: "nreplstrno", actNestReplRe: "nreplre", actNestReplReNo: "nreplreno",
+	actNestReplSame: "nreplsame", actNestReplFn: "nreplfn", actNestSplit: "nsplit", actNestMatch: "nmatch", actNestCtor: "nctor", actNone: "none", actSet1: "set1", actSet2: "set2", actSet1Once: "set1once", actExec: "exec", actTest: "test", actMatch: "match"}
 
 func (a reAction) js() string {
 	switch a {
@@ -56,6 +69,24 @@ func (a reAction) js() string {
 		return `log.push("t:" + __S(re.test("aa")) + ":" + __S(re.lastIndex));`
 	case actMatch:
 		return `var mm = "aa".match(re); log.push("m:" + (re.global ? __L(mm) : __A(mm)) + ":" + __S(re.lastIndex));`
+	case actNestReplStr:
+		return `return "xy".replace("x", "Q");`
+	case actNestReplStrNo:
+		return `return "xy".replace("z", "Q");`
+	case actNestReplRe:
+		return `return "xay".replace(/a/g, "Q");`
+	case actNestReplReNo:
+		return `return "xy".replace(/a/, "Q");`
+	case actNestReplSame:
+		return `return "aa".replace(re, "Q");`
+	case actNestReplFn:
+		return `return "ab".replace(/b/, function(m, off){ return "<" + off + ">"; });`
+	case actNestSplit:
+		return `return "a,b".split(/,/).join("|");`
+	case actNestMatch:
+		return `return "xay".match(/a/)[0];`
+	case actNestCtor:
+		return `return new RegExp(re).source + RegExp("b", "i").ignoreCase;`
 	}
 	return ""
 }
@@ -73,7 +104,7 @@ func (s reScenario) name() string {
 func reScenarios() []reScenario {
 	var out []reScenario
 	for _, t := range []reAction{actNone, actSet2} {
-		for _, f := range []reAction{actNone, actSet1, actSet1Once, actExec, actTest, actMatch} {
+		for _, f := range append([]reAction{actNone, actSet1, actSet1Once, actExec, actTest, actMatch}, nestActs...) {
 			out = append(out, reScenario{"replaceF", t, f})
 		}
 		for _, f := range []reAction{actNone, actSet1} {
@@ -105,7 +136,8 @@ func (c reCase) key() string {
 
 func (c reCase) js() string {
 	var sb strings.Builder
-	fmt.Fprintf(&sb, "(function(){ var log = [], once = 0; var re = new RegExp(%s, %s);\n", jsStringLiteral(c.pattern), jsStringLiteral(c.flags))
+	// warm-up: one completed replace before the case (any state a previous call leaves behind is in place)
+	fmt.Fprintf(&sb, "(function(){ \"warm-up-warm-up\".replace(/-/g, function(){ return \"++\"; }); var log = [], once = 0; var re = new RegExp(%s, %s);\n", jsStringLiteral(c.pattern), jsStringLiteral(c.flags))
 	if c.init == "obj" {
 		sb.WriteString("re.lastIndex = { valueOf: function(){ log.push(\"vo\"); return 1; } };\n")
 	} else {
@@ -171,6 +203,73 @@ func (m *reModel) matchOp(s []uint16) (string, error) {
 	return regex.RenderArray(items), nil
 }
 
+// simpleReplace is String.prototype.replace with a constant pattern and template, on the reference model.
+func simpleReplace(pattern, flags, subj, tmpl string) ([]uint16, error) {
+	re := regex.NewRegExp(regex.ClassifyString(pattern), flags)
+	outs, err := re.StringReplace(regex.Units(subj), regex.Replacement{Template: regex.Units(tmpl)})
+	if err != nil {
+		return nil, err
+	}
+	v, err := parseVal(outs[0])
+	return v.S, err
+}
+
+// nested evaluates an action that returns a value (the replacement).
+func (m *reModel) nested(a reAction) ([]uint16, bool, error) {
+	re := m.re
+	switch a {
+	case actNestReplStr:
+		return regex.Units("Qy"), true, nil // 15.5.4.11 with a string searchValue: first occurrence
+	case actNestReplStrNo:
+		return regex.Units("xy"), true, nil
+	case actNestReplRe:
+		r, err := simpleReplace("a", "g", "xay", "Q")
+		return r, true, err
+	case actNestReplReNo:
+		r, err := simpleReplace("a", "", "xy", "Q")
+		return r, true, err
+	case actNestReplSame:
+		s := regex.Units("aa")
+		ms, err := re.CollectMatches(s, true)
+		if err != nil {
+			return nil, true, err
+		}
+		var out []uint16
+		last := 0
+		for _, x := range ms {
+			out = append(append(out, s[last:x.Start()]...), 'Q')
+			last = x.End()
+		}
+		return append(out, s[last:]...), true, nil
+	case actNestReplFn:
+		return regex.Units("a<1>"), true, nil
+	case actNestSplit:
+		sp := regex.NewRegExp(regex.ClassifyString(","), "")
+		items, err := regex.SplitUnits(sp.Prog, regex.Units("a,b"), regex.Undefined())
+		if err != nil {
+			return nil, true, err
+		}
+		var out []uint16
+		for i, it := range items {
+			if i > 0 {
+				out = append(out, '|')
+			}
+			out = append(out, it.S...)
+		}
+		return out, true, nil
+	case actNestMatch:
+		mr := regex.NewRegExp(regex.ClassifyString("a"), "")
+		x, err := mr.ExecRaw(regex.Units("xay"))
+		if err != nil || x == nil {
+			return nil, true, fmt.Errorf("model: nested match failed: %v", err)
+		}
+		return regex.Units("xay")[x.Start():x.End()], true, nil
+	case actNestCtor:
+		return append(append([]uint16(nil), re.Prog.Pat.Source...), regex.Units("true")...), true, nil
+	}
+	return nil, false, m.act(a)
+}
+
 func (m *reModel) act(a reAction) error {
 	re := m.re
 	switch a {
@@ -227,7 +326,16 @@ func reExpected(c reCase, ml bool, rvMode int) (string, error) {
 	}
 	s := regex.Units(c.subj)
 	thisHook := func() error { m.obs("this"); return m.act(c.sc.thisAct) }
-	cb := func(tag string) error { m.obs(tag); return m.act(c.sc.cbAct) }
+	var cbRet []uint16
+	cb := func(tag string) error {
+		m.obs(tag)
+		ret, has, err := m.nested(c.sc.cbAct)
+		cbRet = []uint16{'#'}
+		if has {
+			cbRet = ret
+		}
+		return err
+	}
 	var r string
 	err := func() error {
 		if err := thisHook(); err != nil {
@@ -280,7 +388,7 @@ func reExpected(c reCase, ml bool, rvMode int) (string, error) {
 					if err := cb("fn"); err != nil {
 						return err
 					}
-					out = append(out, '#')
+					out = append(out, cbRet...)
 				} else {
 					out = append(out, '[')
 					out = append(out, s[x.Start():x.End()]...)
